@@ -70,7 +70,7 @@ if "--no-tests" in sys.argv and os.path.exists(os.path.join(dst, "meta.json")):
     for c, r in old.get("checks", {}).items():
         meta.setdefault("checks", {}).setdefault(c, r)
 for f in ("patch.diff", "demo.py", "notes.md"):
-    if os.path.exists(os.path.join(src, f)):
+    if os.path.exists(os.path.join(src, f)) and os.path.realpath(src) != os.path.realpath(dst):
         shutil.copy(os.path.join(src, f), os.path.join(dst, f))
 notes = open(os.path.join(src, "notes.md")).read() if os.path.exists(os.path.join(src, "notes.md")) else ""
 meta["needs_to_manifest"] = notes[:1500]
